@@ -71,6 +71,21 @@ Proof.
   crunch; try exact I; close_within.
 Qed.
 
+Lemma jwt_bearer_client_nosave w cr : saves_ok within anyA (jwt_bearer_client w cr).
+Proof.
+  unfold jwt_bearer_client. apply saves_ok_bind; [apply authenticated_nosave|]. intros [c|]; [exact I|].
+  destruct (_ && _)%bool; exact I.
+Qed.
+
+(* jwt-bearer: granted = active = requested *)
+Lemma jwt_bearer_grant_saves w n now r : saves_ok within anyA (jwt_bearer_grant w n now r).
+Proof.
+  unfold jwt_bearer_grant.
+  destruct (negb (has_grant GJwtBearer (cf_grants (w_cfg w)))); [exact I|].
+  apply saves_ok_bind; [apply jwt_bearer_client_nosave|]. intros [c|]; [|exact I].
+  crunch; try exact I; close_within.
+Qed.
+
 Lemma ciba_grant_saves w n now r : saves_ok within anyA (ciba_grant w n now r).
 Proof.
   unfold ciba_grant.
@@ -184,7 +199,7 @@ Proof.
   - apply continue_auth_saves.
   - apply push_auth_saves.
   - destruct g; try exact I; (apply saves_ok_bind; [|intros; exact I]).
-    + apply cc_grant_saves. + apply code_grant_saves. + apply refresh_grant_saves. + apply ciba_grant_saves.
+    + apply cc_grant_saves. + apply code_grant_saves. + apply refresh_grant_saves. + apply jwt_bearer_grant_saves. + apply ciba_grant_saves.
   - apply introspect_saves.
   - apply revoke_saves.
   - apply userinfo_saves.
